@@ -1115,6 +1115,10 @@ class Gen:
             opts.append((5, 'grid3'))
         if fn.is_main and depth > 0 and fn.ret_shape in ('pair', 'big') and not in_loop:
             opts.append((6, 'mode-return'))
+        if depth > 0 and (C.is_float or C.kind in ('s32', 'u32', 's64', 'u64')):
+            opts += [(4, 'loop-bound'), (5, 'agg-swap')]
+        if C.is_float:
+            opts.append((4, 'sum-narrow'))
         if depth > 0:
             opts += [(8, 'if'), (4, 'if1'), (8, 'for'), (14, 'with'), (3, 'while')]
         if fn.is_main and self.helpers:
@@ -1301,6 +1305,12 @@ class Gen:
             self.grid3_scenario(fn, C, ind, out)
         elif k == 'mode-return':
             return self.mode_return_scenario(fn, C, ind, out, in_with)
+        elif k == 'loop-bound':
+            self.loop_bound_scenario(fn, C, ind, out)
+        elif k == 'agg-swap':
+            self.agg_swap_scenario(fn, C, ind, out)
+        elif k == 'sum-narrow':
+            self.sum_narrow_scenario(fn, C, ind, out)
         elif k == 'alias-call':
             return self.alias_call_scenario(fn, C, ind, out, in_with, in_loop)
         elif k == 'return':
@@ -1447,6 +1457,164 @@ class Gen:
             return r
         return False
 
+
+    def accumulator(self, fn, C, ind, out):
+        """An existing unprotected scalar of exactly the context's kind, or a fresh one."""
+        ch = self.ch
+        vs = [v for v in self.scalars(fn, lambda kk: kk == C.kind) if v not in fn.protected and not v.startswith(('a', 'p', 'c'))]
+        if vs and ch.bool(0.5):
+            return ch.choice(vs)
+        acc = fn.fresh('v')
+        a, _ = self.operand(fn, C, 1)
+        b, _ = self.operand(fn, C, 0)
+        out.append(f'{ind}{acc} = ({a} + {b})')
+        fn.env[acc] = Sc(C.kind, sf=self.sf_of(fn, f'({a} + {b})', C))
+        return acc
+
+    def loop_bound_scenario(self, fn, C, ind, out):
+        """A `range` whose bound mentions a name the loop body rebinds: the iterable is evaluated once, on entry."""
+        ch = self.ch
+        acc = self.accumulator(fn, C, ind, out)
+        form = ch.weighted([(4, 'range1'), (3, 'range2'), (3, 'len')])
+        ls = self.lists(fn, lambda t: t.lb >= 1)
+        if form == 'len' and not ls:
+            form = 'range1'
+        i = fn.fresh('i')
+        u, _ = self.operand(fn, C, 0)
+        step = f'{ind}    {acc} = ({acc} + {u})'
+        if form == 'range1':
+            n = fn.fresh('k')
+            out.append(f'{ind}{n} = {ch.int(2, 4)}')
+            out.append(f'{ind}for {i} in range({n}):')
+            out.append(f'{ind}    {n} = {n} - 1')
+            out.append(step)
+            fn.env[n] = Sc(C.kind)
+            fn.protected.add(n)
+        elif form == 'range2':
+            lo, hi = fn.fresh('k'), fn.fresh('k')
+            out.append(f'{ind}{lo} = {ch.int(0, 1)}')
+            out.append(f'{ind}{hi} = {ch.int(3, 5)}')
+            out.append(f'{ind}for {i} in range({lo}, {hi}):')
+            out.append(f'{ind}    {hi} = {hi} - 1')
+            out.append(step)
+            fn.env[lo] = Sc('u8')
+            fn.env[hi] = Sc(C.kind)
+            fn.protected.update((lo, hi))
+        else:
+            l = ch.choice(ls)
+            ys = fn.fresh('xs')
+            out.append(f'{ind}{ys} = {l}[:]')
+            out.append(f'{ind}for {i} in range(len({ys})):')
+            out.append(f'{ind}    {ys} = {ys}[0:1]')
+            out.append(step)
+            self.bind(fn, ys, Li(fn.env[l].elem, 1, False, sf=fn.env[l].sf))
+            if ys not in fn.must_observe:
+                fn.must_observe.append(ys)
+        fn.env[acc].sf = fn.env[acc].sf and self.sf_of(fn, f'({acc} + {u})', C)
+        if acc not in fn.must_observe:
+            fn.must_observe.append(acc)
+        self.features.add('loop-bound-rebound-in-body')
+        self.features.add('for')
+
+    def agg_swap_scenario(self, fn, C, ind, out):
+        """`u = t` for a tuple / list, `t` rebound afterwards inside the same loop body or a following branch, `u` read after
+        that: the copy must keep the value `t` had (the emitted name may be a reference only while its source stays put)."""
+        ch = self.ch
+
+        def field():
+            a, _ = self.operand(fn, C, 1)
+            b, _ = self.operand(fn, C, 0)
+            return f'({a} {self.pick_op(fn, C, a, b, ["+", "-"])} {b})'
+        acc = self.accumulator(fn, C, ind, out)
+        is_list = ch.bool(0.4)
+        loop = ch.bool(0.6)
+        t, u = (fn.fresh('xs'), fn.fresh('xs')) if is_list else (fn.fresh('t'), fn.fresh('t'))
+        lb, rb = ('[', ']') if is_list else ('(', ')')
+        out.append(f'{ind}{t} = {lb}{field()}, {field()}{rb}')
+        inner = ind
+        if loop:
+            i = fn.fresh('i')
+            out.append(f'{ind}for {i} in range({ch.int(2, 3)}):')
+            inner = ind + '    '
+        out.append(f'{inner}{u} = {t}')
+        x, _ = self.operand(fn, C, 0)
+        if is_list:
+            new = f'[{u}[1], ({u}[0] + {x})]'
+        else:
+            p, q = fn.fresh('v'), fn.fresh('v')
+            out.append(f'{inner}{p}, {q} = {u}')
+            new = f'({q}, ({p} + {x}))'
+        if loop:
+            out.append(f'{inner}{t} = {new}')
+        else:
+            out.append(f'{inner}if {self.boolean(fn, C, 1)}:')
+            out.append(f'{inner}    {t} = {new}')
+            if ch.bool(0.5):
+                out.append(f'{inner}else:')
+                out.append(f'{inner}    {t} = {lb}{field()}, {field()}{rb}')
+        if is_list:
+            out.append(f'{inner}{acc} = ({acc} + {u}[0])')
+        else:
+            r, s2 = fn.fresh('v'), fn.fresh('v')
+            out.append(f'{inner}{r}, {s2} = {u}')
+            out.append(f'{inner}{acc} = ({acc} + {r})')
+        fn.env[acc].sf = False
+        if is_list:
+            self.bind(fn, t, Li(C.kind, 2, True, sf=False))
+            if not loop:
+                self.bind(fn, u, Li(C.kind, 2, True, sf=False))
+        else:
+            fn.env[t] = Tu([C.kind, C.kind])
+            if not loop:
+                fn.env[u] = Tu([C.kind, C.kind])
+                for n in (p, q, r, s2):
+                    fn.env[n] = Sc(C.kind)
+        for n in (acc, t):
+            if n not in fn.must_observe and not isinstance(fn.env[n], Tu):
+                fn.must_observe.append(n)
+        self.features.add('aggregate-copy-source-rebound')
+        if loop:
+            self.features.add('for')
+
+    def sum_narrow_scenario(self, fn, C, ind, out):
+        """`sum` over a list of statically known length whose elements are narrower than the context: the accumulator must be
+        sized for all n - 1 additions."""
+        ch = self.ch
+        kc = C.kind
+        pinned = self.lists(fn, lambda t: t.exact and t.lb >= 2 and t.elem != kc and fits(t.elem, kc))
+        if pinned and ch.bool(0.4):
+            l = ch.choice(pinned)
+        else:
+            narrow = sorted({fn.env[v].kind for v in self.scalars(fn, lambda kk: kk != kc and kk != 'x25' and fits(kk, kc))})
+            if narrow and ch.bool(0.7):
+                kk = ch.choice(narrow)
+                vs = self.scalars(fn, lambda k2: k2 == kk)
+                elems = [ch.choice(vs) for _ in range(ch.int(2, 3))]
+            elif kc == 'f64':
+                # make two binary32 values first
+                K = Ctx('f32', ch.choice(RMS))
+                out.append(f'{ind}with {K.text}:')
+                elems = []
+                for _ in range(2):
+                    w = fn.fresh('v')
+                    out.append(f'{ind}    {w} = {self.inexact(fn, K)}')
+                    fn.env[w] = Sc('f32', sf=True)
+                    elems.append(w)
+                kk = 'f32'
+                self.features.add('with')
+                self.features.add('ctx:f32/' + K.rm)
+            else:
+                return
+            l = fn.fresh('xs')
+            out.append(f'{ind}{l} = [{", ".join(elems)}]')
+            self.bind(fn, l, Li(kk, len(elems), True, sf=all(fn.env[e].sf for e in elems)))
+        v = fn.fresh('v')
+        out.append(f'{ind}{v} = sum({l})')
+        fn.env[v] = Sc(kc, sf=fn.env[l].sf)
+        if v not in fn.must_observe:
+            fn.must_observe.append(v)
+        self.features.add('sum')
+        self.features.add('sum-known-length-narrow-elements')
 
     def mode_return_scenario(self, fn, C, ind, out, in_with):
         """A tuple `return` with a computed field lexically inside a `with` block (possibly two, nested) whose rounding mode
